@@ -1153,6 +1153,8 @@ class RunBundler:
                     )
                 # Since there are no events or event_pages incrementing the sequence counter, we do it ourselves.
                 self._sequence_counters[stream_name] += indices_difference
+                # the collected frames cannot be re-taken: a rewind must not hand their seq_nums out again
+                self._sequence_counters_copy[stream_name] = self._sequence_counters[stream_name]
 
             if return_payload:
                 return payload
@@ -1160,6 +1162,8 @@ class RunBundler:
         else:
             # Since there are no events or event_pages incrementing the sequence counter, we do it ourselves.
             self._sequence_counters[stream_name] += indices_difference
+            # the collected frames cannot be re-taken: a rewind must not hand their seq_nums out again
+            self._sequence_counters_copy[stream_name] = self._sequence_counters[stream_name]
 
     async def backstop_collect(self):
         for obj in list(self._uncollected):
